@@ -7,9 +7,12 @@ package c12
 
 import (
 	"fmt"
-	"runtime/debug"
+	"math/big"
 	"math/rand"
+	"perun.network/go-perun/wallet"
+	"runtime/debug"
 	"sync"
+	"sync/atomic"
 	"time"
 
 	"perun.network/go-perun/channel"
@@ -178,6 +181,50 @@ var deviations = []deviation{
 		a.M.SetTimeout(20 * time.Second)
 		a.H.SetTimeout(20 * time.Second)
 		return ok && n > 0
+	}},
+	{name: "virtual-funding/the-adversary-has-gone-offline-when-the-hub-answers", run: func(rng *rand.Rand, a *arena) bool {
+		// M and H fund a virtual channel through the hub V with perfectly valid proposals, but M
+		// closes its connection right after sending its funding proposal: the hub's answer to M
+		// cannot be delivered.
+		n := len(a.w.Assets)
+		alloc := channel.NewAllocation(2, backends(n), append([]channel.Asset(nil), a.w.Assets...)...)
+		for i := range alloc.Balances {
+			alloc.Balances[i] = []channel.Bal{big.NewInt(3), big.NewInt(3)}
+		}
+		proposer, parents, maps := a.H, []channel.ID{a.ctlV.ID(), a.chM.ID()}, [][]channel.Index{{0, 1}, {1, 0}}
+		peers := []map[wallet.BackendID]wire.Address{a.H.Wire, a.M.Wire}
+		if rng.Intn(2) == 0 {
+			proposer, parents, maps = a.M, []channel.ID{a.chM.ID(), a.ctlV.ID()}, [][]channel.Index{{0, 1}, {1, 0}}
+			peers = []map[wallet.BackendID]wire.Address{a.M.Wire, a.H.Wire}
+		}
+		prop, err := client.NewVirtualChannelProposal(10, proposer.WAddr, alloc, peers, parents, maps)
+		if err != nil {
+			return false
+		}
+		mKey, vKey := wire.Keys(a.M.Wire), wire.Keys(a.V.Wire)
+		var refused int64
+		a.w.Bus.SetSendFault(func(e *wire.Envelope) error {
+			if wire.Keys(e.Sender) != vKey || wire.Keys(e.Recipient) != mKey {
+				return nil
+			}
+			switch e.Msg.(type) {
+			case *client.ChannelUpdateAccMsg, *client.ChannelUpdateRejMsg:
+				atomic.AddInt64(&refused, 1)
+				return fmt.Errorf("connection closed by the peer")
+			}
+			return nil
+		})
+		a.M.SetTimeout(3 * time.Second)
+		a.H.SetTimeout(3 * time.Second)
+		ctx, cancel := proposer.Ctx()
+		_, _ = proposer.Client.ProposeChannel(ctx, prop)
+		cancel()
+		ok := waitUntil(15*time.Second, func() bool { return atomic.LoadInt64(&refused) > 0 })
+		time.Sleep(50 * time.Millisecond)
+		a.w.Bus.SetSendFault(nil)
+		a.M.SetTimeout(20 * time.Second)
+		a.H.SetTimeout(20 * time.Second)
+		return ok
 	}},
 	{name: "opening/version-0-signature-replaced", run: func(rng *rand.Rand, a *arena) bool {
 		// M answers the version-0 signature exchange of a new channel with something else
